@@ -489,6 +489,10 @@ func Peers() []wm.NPPeer {
 		{Pod: ml("a", "bc")},                          // collides with the next one when requirement strings are concatenated
 		{Pod: &wm.Sel{ML: map[string]string{"a": "b"}, ME: []wm.Req{{Key: "c", Op: "Exists"}}}},
 		{NSSel: ml("team", "a"), Pod: ml("app", "b")}, // both parts satisfied by real w2 in ns1 (team=a): exempt
+		{Pod: ml("app", "x", "role", "mon")},          // requirements are a superset of those of {app=x}
+		// matchLabels satisfied by the real w2 / ns1, the additional expression is not: the representative must stay
+		{NSSel: &wm.Sel{ML: map[string]string{"team": "a"}, ME: []wm.Req{{Key: "zone", Op: "Exists"}}}, Pod: ml("app", "b")},
+		{Pod: &wm.Sel{ML: map[string]string{"app": "b"}, ME: []wm.Req{{Key: "role", Op: "Exists"}}}},
 	}
 }
 
@@ -523,7 +527,29 @@ type Scope struct {
 // Scopes returns the exposure world scopes.
 func Scopes(quick bool) []Scope {
 	rules := Rules()
+	var reduced []wm.NPRule // entire-cluster spellings, own-namespace peers and one selector peer, with every port shape
+	for _, p := range append(append([]wm.NPPeer{}, Peers()[:4]...), Peers()[8]) {
+		for _, pt := range Ports {
+			reduced = append(reduced, wm.NPRule{Peers: []wm.NPPeer{p}, Ports: pt})
+		}
+	}
+	reduced = append(reduced, wm.NPRule{}, wm.NPRule{Ports: Ports[2]})
 	return []Scope{
+		{"shared-policy", func(c *fw.Ctx) *wm.World {
+			// policy A selects w1 only, policy B selects every pod of ns1 (w1 and w2): w1 is governed by both, w2 by one
+			r1 := c.Choose(len(reduced), "rule of policy A (app=a)")
+			r2 := c.Choose(len(reduced), "rule of policy B (all pods)")
+			swap := c.Choose(2, "policy names: A<B | B<A")
+			w := baseWorld()
+			na, nb := "pa", "pb"
+			if swap == 1 {
+				na, nb = "pz", "pb"
+			}
+			a := wm.NP{NS: "ns1", Name: na, PodSel: *ml("app", "a"), Types: []string{"Ingress", "Egress"}, Ingress: []wm.NPRule{reduced[r1]}, Egress: []wm.NPRule{reduced[r1]}}
+			b := wm.NP{NS: "ns1", Name: nb, PodSel: wm.Sel{}, Types: []string{"Ingress", "Egress"}, Ingress: []wm.NPRule{reduced[r2]}, Egress: []wm.NPRule{reduced[r2]}}
+			w.NPs = []wm.NP{a, b}
+			return w
+		}},
 		{"one-policy/two-rules", func(c *fw.Ctx) *wm.World {
 			dir := fw.Pick(c, []string{"Ingress", "Egress"}, "direction")
 			r1 := c.Choose(len(rules), "rule 1")
@@ -549,7 +575,7 @@ func Scopes(quick bool) []Scope {
 			selB := fw.Pick(c, []*wm.Sel{ml("app", "a"), {}, ml("app", "b")}, "podSelector of B")
 			typesA := fw.Pick(c, [][]string{{"Ingress"}, {"Egress"}, {"Ingress", "Egress"}, nil}, "policyTypes of A")
 			nsB := fw.Pick(c, []string{"ns1", "ns2"}, "namespace of B")
-			c.Stride(map[bool]int{true: 60, false: 6}[quick])
+			c.Stride(map[bool]int{true: 150, false: 6}[quick])
 			w := baseWorld()
 			w.NSs = append(w.NSs, wm.NS{Name: "ns2", Labels: map[string]string{"team": "b"}, HasObj: true})
 			w.WLs = append(w.WLs, wm.Workload{Kind: "Deployment", NS: "ns2", Name: "w3", Labels: map[string]string{"app": "a"}, Ports: []wm.CPort{{Name: "http", Num: 8080}}, Replicas: 1})
